@@ -39,7 +39,7 @@ fn space_for(tier: Tier) -> (Space, usize) {
     }
 }
 
-const INPUTS: [&str; 17] = ["", "a", "b", "ab", "aab", " ", "a b", "a\tb", "\n", "1", "a\u{c}b", "\u{a0}", "c", "ca", "cab", "ccb", "[a]b"];
+const INPUTS: [&str; 20] = ["", "a", "b", "ab", "aab", " ", "a b", "a\tb", "\n", "1", "a\u{c}b", "\u{a0}", "c", "ca", "cab", "ccb", "[a]b", "\\a", "a\\ab", "\\ b"];
 
 fn observe(text: &str, flags: &str, extra_input: &str, xsd: bool) -> Vec<String> {
     let mut v = vec![];
@@ -47,7 +47,7 @@ fn observe(text: &str, flags: &str, extra_input: &str, xsd: bool) -> Vec<String>
         Out::Ok(re) => {
             v.push("compile=Ok".to_string());
             for inp in INPUTS.iter().copied().chain(std::iter::once(extra_input)) {
-                let s = imp::surface(&re, inp, "<$0>");
+                let s = imp::surface(&re, inp, "<$0|$1|$2>");
                 v.push(s.show());
             }
         }
@@ -89,6 +89,8 @@ impl Check for C14 {
             return;
         }
         let k = if seg.param > 0 { seg.param } else { k };
+        // the long class-syntax strings with single insertions only in the quick tier
+        let k = if ctx.tier == Tier::Quick && scope_name.starts_with("TX") && !scope_name.starts_with("TXE") { 1 } else { k };
         space::for_each_text(seg, lo, hi, &mut |_i, text| {
             let chars: Vec<char> = text.chars().collect();
             let n = chars.len();
@@ -173,7 +175,7 @@ impl Check for C14 {
                         let input = if ix == 0 { "" } else { INPUTS.get(ix - 1).copied().unwrap_or(&stripped) };
                         out.fail(
                             "C14",
-                            &Case::new(&scope_name, &with_s, "x").xsd(xsd).input(input).repl("<$0>").api(if ix == 0 { "compile" } else { "all" }),
+                            &Case::new(&scope_name, &with_s, "x").xsd(xsd).input(input).repl("<$0|$1|$2>").api(if ix == 0 { "compile" } else { "all" }),
                             "XDiffersFromStripped",
                             &format!("like {:?} without x: {}", stripped, b.get(ix).cloned().unwrap_or_default()),
                             &a.get(ix).cloned().unwrap_or_default(),
